@@ -21,7 +21,7 @@ func init() {
 		Prop:  "C03",
 		Title: "No panic, no hang: schemas and inputs are untrusted data",
 		Explanation: "Closed inventory of panic-capable constructs in repository code reachable (VTA call graph plus explicit reflection edges: every function value registered in a built-in CustomFuncs map literal is a callee of the reflect.Value.Call sites) from NewSchema, (*schema).NewTransform, (*transform).Read/RawRecord and rawRecord.Raw/Checksum; every construct of a kind is enumerated from SSA and must be discharged mechanically, be a reviewed (argued) entry keyed by function and caller, or be a recorded finding. " +
-			"K1 every explicit panic, one obligation per (panic site, call site of its function): the callers must establish the negation of the panic's guard (dominating branch facts, predicate summaries, up to 3 call levels), otherwise the pair must be a reviewed entry; " +
+			"K1 every explicit panic, one obligation per (panic site, call site of its function): the callers must establish the negation of the panic's guard (dominating branch facts, predicate summaries, up to 3 call levels; comparisons in linear normal form, so `n := len(s)-1; n < 0` is `len(s) < 1`; a guard that is not a plain fact about the parameters - a phi such as an optional variadic index, a range predicate, a disjunction - is specialised to the arguments of the call and refuted disjunct by disjunct; a fact read before a dominating assignment of the guarded field is carried across it by evaluating later loads to the assigned value), otherwise the pair must be a reviewed entry (a mechanically discharged call site keeps its slot of the reviewed entry; a guard computed by a `v, ok :=` helper is named by the helper's deciding branch); " +
 			"K2 every call into package reflect is classified (closed table of total operations; anything else needs its documented precondition): Kind-restricted accessors need a dominating Kind() test on the same value (also established by all callers), Type.Elem() needs a static type or the IsVariadic && index == NumIn()-1 guard, signature accessors need Kind()==Func, In/Out need an index bound, Value.Call needs statically conforming arguments, FieldByName/Elem/Int chains are evaluated on the struct definition of the toolchain in use; " +
 			"K3 every type assertion without comma-ok: dominating type switch / comma-ok / Kind() / IsErrX-style predicate on the same value (interprocedurally), or a closed set of dynamic-type sources (MakeInterface sites, sync.Pool New/Put, LoadingCache loaders, results of repository functions), or the ValidateSchema/CreateFormatReader pair of one FileFormat; " +
 			"K4 every call of an evaluating function of the xpath engine (NodeIterator.MoveNext, Expr.Evaluate, ...; closed classification of the xpath API used) must be covered by a deferred recover on every call chain from the entry points; " +
@@ -57,6 +57,7 @@ type c03ctx struct {
 	unprot     map[*ssa.Function]*ssa.Function
 	pending    []c03pending
 	k1out      []c03k1out
+	k1cache    map[c03k1key][2]string
 }
 
 func runC03(c *core.Ctx) {
@@ -221,6 +222,30 @@ func (x *c03ctx) panicCondition(p *ssa.Panic) (inner []c03atom, atoms []c03atom)
 	return inner, atoms
 }
 
+// k1desc names the guard of a panic in owner. A guard that is the result of a helper (`t, ok := classify(x)`,
+// `if !known(x)`) may have been reviewed under the branch fact the helper decides it by (the guard as it reads when the
+// helper is inlined): that name is used when a reviewed entry of owner carries it and none carries the literal one.
+func (x *c03ctx) k1desc(owner *ssa.Function, inner []c03atom) string {
+	raw := c03descOf(inner)
+	inl := c03descOf(x.e.inlineInner(inner, 0))
+	if inl == raw {
+		return raw
+	}
+	has := func(desc string) bool {
+		prefix := core.FuncKey(owner) + ": panic when " + desc + " <- "
+		for k := range c03reviewedK1 {
+			if strings.HasPrefix(k, prefix) {
+				return true
+			}
+		}
+		return false
+	}
+	if !has(raw) && has(inl) {
+		return inl
+	}
+	return raw
+}
+
 func c03descOf(inner []c03atom) string {
 	if len(inner) == 0 {
 		return "?"
@@ -237,43 +262,10 @@ func c03descOf(inner []c03atom) string {
 // containing the panic or, after lifting through single-caller unexported helpers, one of its transitive callers;
 // inner/atoms are expressed in owner's frame; s is a call site of owner.
 func (x *c03ctx) k1pair(owner *ssa.Function, inner, atoms []c03atom, stab []ssa.Instruction, p *ssa.Panic, s ssa.CallInstruction, depth int) bool {
-	base := core.FuncKey(owner) + ": panic when " + c03descOf(inner)
+	base := core.FuncKey(owner) + ": panic when " + x.k1desc(owner, inner)
 	key := base + " <- " + core.FuncKey(s.Parent())
 	args := x.e.siteArgs(s, owner)
-	proved := ""
-	fail := "the panic's guard does not speak about the function's parameters"
-	if args != nil {
-		for _, a := range atoms {
-			na, ok := a.negate().subst(args)
-			if !ok {
-				continue
-			}
-			// stability of the atom's memory in every frame on the way down to the panic: from the entry of the panic's
-			// function up to the panic, and from the entry of each function the pair was lifted through up to the call
-			// of the helper (the lifted atom is a substitution instance, so its field set covers the helper's atom)
-			stable := true
-			flds, _ := a.t.memFields()
-			if a.u != nil {
-				f2, _ := a.u.memFields()
-				flds = append(flds, f2...)
-			}
-			for _, upTo := range append([]ssa.Instruction{p}, stab...) {
-				if !x.e.stableBetween(nil, upTo, flds) {
-					stable = false
-					fail = "guarded location may be written inside " + core.FuncKey(upTo.Parent()) + " before the test"
-				}
-			}
-			if !stable {
-				continue
-			}
-			pr := x.e.prove(c03goal{kind: "atom", atom: na, t: na.t}, s, 1)
-			if pr.ok {
-				proved = "caller establishes " + na.pretty() + ": " + pr.how
-				break
-			}
-			fail = "caller does not establish " + na.pretty() + " (" + pr.how + ")"
-		}
-	}
+	proved, fail := x.k1mech(owner, atoms, stab, p, s, args)
 	if proved != "" {
 		x.k1out = append(x.k1out, c03k1out{status: core.Discharged, key: key, detail: proved})
 		return true
@@ -371,6 +363,68 @@ func (x *c03ctx) k1pair(owner *ssa.Function, inner, atoms []c03atom, stab []ssa.
 	return false
 }
 
+// k1mech: the mechanical part of a (panic, call site) pair: the caller establishes the negation of the panic's guard.
+// The outcome is cached per (owner, panic, call site): runK1 evaluates all sites of a panic first (see there).
+func (x *c03ctx) k1mech(owner *ssa.Function, atoms []c03atom, stab []ssa.Instruction, p *ssa.Panic, s ssa.CallInstruction, args []*c03term) (proved, fail string) {
+	ck := c03k1key{owner, p, s}
+	if r, ok := x.k1cache[ck]; ok {
+		return r[0], r[1]
+	}
+	defer func() {
+		if x.k1cache == nil {
+			x.k1cache = map[c03k1key][2]string{}
+		}
+		x.k1cache[ck] = [2]string{proved, fail}
+	}()
+	fail = "the panic's guard does not speak about the function's parameters"
+	if args != nil {
+		for _, a := range atoms {
+			na, ok := a.negate().subst(args)
+			if !ok {
+				continue
+			}
+			// stability of the atom's memory in every frame on the way down to the panic: from the entry of the panic's
+			// function up to the panic, and from the entry of each function the pair was lifted through up to the call
+			// of the helper (the lifted atom is a substitution instance, so its field set covers the helper's atom)
+			stable := true
+			flds, _ := a.t.memFields()
+			if a.u != nil {
+				f2, _ := a.u.memFields()
+				flds = append(flds, f2...)
+			}
+			for _, upTo := range append([]ssa.Instruction{p}, stab...) {
+				if !x.e.stableBetween(nil, upTo, flds) {
+					stable = false
+					fail = "guarded location may be written inside " + core.FuncKey(upTo.Parent()) + " before the test"
+				}
+			}
+			if !stable {
+				continue
+			}
+			pr := x.e.prove(c03goal{kind: "atom", atom: na, t: na.t}, s, 1)
+			if pr.ok {
+				proved = "caller establishes " + na.pretty() + ": " + pr.how
+				break
+			}
+			fail = "caller does not establish " + na.pretty() + " (" + pr.how + ")"
+		}
+	}
+	if proved == "" && args != nil && owner == p.Parent() {
+		// the guard is not a plain fact about the parameters (a phi, a predicate call, a disjunction): decide it
+		// for the arguments of this call
+		if how, ok := x.k1siteRefute(p, s, args); ok {
+			proved = how
+		}
+	}
+	return proved, fail
+}
+
+type c03k1key struct {
+	owner *ssa.Function
+	p     *ssa.Panic
+	s     ssa.CallInstruction
+}
+
 type c03k1out struct {
 	status, key, detail string
 }
@@ -397,11 +451,26 @@ func (x *c03ctx) runK1() {
 					continue
 				}
 				inner, atoms := x.panicCondition(p)
-				base := core.FuncKey(f) + ": panic when " + c03descOf(inner)
+				base := core.FuncKey(f) + ": panic when " + x.k1desc(f, inner)
 				sites := x.e.callers[f]
 				if len(sites) == 0 {
 					x.settle("K1", base+" <- (no static caller)", p, c03reviewedK1, "explicit panic in reachable code whose callers cannot be enumerated")
 					continue
+				}
+				// A reviewed entry says how many call sites of a caller were reviewed. A site that is now discharged
+				// mechanically is still one of them: it keeps its slot, so that a further, undischarged call from the same
+				// caller is not covered by the slot it would otherwise free. All sites are therefore judged before any
+				// reviewed entry is taken.
+				for _, s := range sites {
+					if cp := core.FuncPkg(s.Parent()); cp == nil || !core.InRepo(cp) {
+						continue
+					}
+					if proved, _ := x.k1mech(f, atoms, nil, p, s, x.e.siteArgs(s, f)); proved != "" {
+						key := base + " <- " + core.FuncKey(s.Parent())
+						if a, ok := c03reviewedK1[key]; ok && x.argCount["K1\x00"+key] < a.n {
+							x.argCount["K1\x00"+key]++
+						}
+					}
 				}
 				extSeen := map[string]bool{}
 				for _, s := range sites {
